@@ -88,7 +88,7 @@ Proof. exact ok_example. Qed.
 
 Require V.Model.CteShape V.Gen.CteShape_gen V.Proofs.CteShape_proofs.
 (* THE KEY COLUMNS A MODEL CTE PROJECTS (regenerated table of _build_model_cte: see Props/C20.v, C20_cte_table).  For ANY model definition, graph and query: the
-   primary key, the foreign key of every many_to_one relationship to another model of the query, the foreign key another model of the query declares ON this model (its one_to_many / one_to_one relationship) and every key column the join paths of the query use on the model are projected (so that every hop of the plan can be joined on its declared columns),
+   primary key, the foreign key of every many_to_one relationship to another model of the query, the foreign key another model of the query declares ON this model (its one_to_many / one_to_one relationship), both junction keys of a many_to_many that goes through this model, and every key column the join paths of the query use on the model are projected (so that every hop of the plan can be joined on its declared columns),
    and a requested dimension that is NOT one of the projected key columns is projected with its own SQL.  A dimension NAMED like a projected key column is not: the key is
    projected under that name first and the dimension's SQL is never evaluated (class C02-K4; the witness below is a row of the regenerated table). *)
 Theorem C02_cte_table : forallb (V.Model.CteShape.cte_row_ok V.Gen.CteShape_gen.cte_world) V.Gen.CteShape_gen.cte_rows = true.
@@ -106,6 +106,12 @@ Theorem C02_incoming_foreign_key_projected : forall qa trunc parse m graph dims 
   (V.Model.CteShape.cr_type r = "one_to_many"%string \/ V.Model.CteShape.cr_type r = "one_to_one"%string) -> In fk (V.Model.CteShape.cr_fks r) -> (1 < length all_models)%nat ->
   In fk (V.Model.CteShape.st_added (V.Model.CteShape.cte_keys_dims qa trunc parse m graph dims filters order_by all_models mfc jk)).
 Proof. exact V.Proofs.CteShape_proofs.incoming_foreign_key_projected. Qed.
+Theorem C02_junction_key_projected : forall qa trunc parse m graph dims filters order_by all_models mfc jk om r k,
+  In om graph -> In (fst om) all_models -> In r (snd om) -> V.Model.CteShape.cr_type r = "many_to_many"%string ->
+  V.Model.CteShape.cr_through r = Some (V.Model.CteShape.mo_name m) -> k <> ""%string ->
+  (V.Model.CteShape.cr_jself r = Some k \/ V.Model.CteShape.cr_jrel r = Some k) -> (1 < length all_models)%nat ->
+  In k (V.Model.CteShape.st_added (V.Model.CteShape.cte_keys_dims qa trunc parse m graph dims filters order_by all_models mfc jk)).
+Proof. exact V.Proofs.CteShape_proofs.junction_key_projected. Qed.
 Theorem C02_join_keys_projected : forall qa trunc parse m graph dims filters order_by all_models mfc l k,
   In k l -> In k (V.Model.CteShape.st_added (V.Model.CteShape.cte_keys_dims qa trunc parse m graph dims filters order_by all_models mfc (Some l))).
 Proof. exact V.Proofs.CteShape_proofs.join_key_projected. Qed.
